@@ -58,6 +58,9 @@ def instances(tier, seed):
     sb = Spec(nx=3, nu=1, xshape=[(2, 1), (1, 1)], ode=[Pg('a') * t, Pg('a') * t, nl1(X(0)) + U(0) * X(1)], params=[Sym('a', value=2)],
               ode_broadcast={0: Pg('a') * t}, note='scalar right-hand side for a vector state')
     add(fam.with_horizon(sb, H[1]), Cfg('DC', N=2, M=2, degree=2, scheme='radau', grid=fam.G_UNI))
+    # a square MATRIX-valued state with a non-symmetric right-hand side
+    sm = Spec(nx=5, nu=1, xshape=[(2, 2), (1, 1)], ode=[X(1) * 2 + t, X(0) - U(0), nl1(X(3)) + X(4), X(2) * X(0), X(1) - X(2)], note='2x2 matrix state, non-symmetric right-hand side')
+    add(fam.with_horizon(sm, H[1]), Cfg('DC', N=2, M=1, degree=2, scheme='radau', grid=fam.G_UNI))
     # the horizon changed after a first transcription (set_t0/set_T on a transcribed OCP): the rows are those of the final horizon
     for ri, (degree, scheme, N, M) in enumerate(((2, 'radau', 2, 2), (1, 'legendre', 3, 1), (1, 'radau', 2, 1)) if tier == 'quick' else ((2, 'radau', 2, 2), (1, 'legendre', 3, 1), (1, 'radau', 2, 1), (2, 'radau', 3, 1), (1, 'radau', 1, 3))):
         s = copy.deepcopy(models[ri % len(models)])
